@@ -174,7 +174,7 @@ def real_raft(ctx, eng, num):
                 ctx.violation("P4-real-raft-state-differs-after-" + r["where"],
                               "single-node hashicorp/raft over the real FSM: after %s the state differs from the replay of the applied "
                               "commands: %s [scenario %d, steps %s]" % (r["where"], (r.get("diff") or "")[:300], r["scenario"], " ".join(r["steps"])),
-                              {"real_raft_scenario": r["scenario"], "seed": r["seed"], "steps": r["steps"]})
+                              {"real_raft_scenario": r["scenario"], "seed": r["seed"], "steps": r["steps"], "offset": r.get("offset")})
             else:
                 ctx.add("violating_schedules_not_listed", 1)
     ctx.cov["real_raft"] = {"scenarios": num, "ok": num - bad, "snapshots": sum(r["snaps"] for r in res),
@@ -185,9 +185,11 @@ def real_raft(ctx, eng, num):
                                                                                    ctx.cov["real_raft"]["restarts"], time.time() - t))
 
 
-def selftest(ctx, eng, scheds, events):
+def selftest(ctx, eng, scheds, events, mig=None):
     """The binding binds: a corrupted record / a dropped event must be noticed by the trace
-    validation; a reference that is fed a different log must be noticed by the differential."""
+    validation; a reference that is fed a different log must be noticed by the differential.
+    mig = (schedules, events) of replayed migration behaviours: a recorded encoding that is not
+    the model's and a tampered conversion record must be noticed."""
     res = {}
     byname = {s["name"]: s for s in scheds}
     items = [(byname[n], eng.alogs[n], evs) for n, evs in F.split_events(events)]
@@ -212,18 +214,36 @@ def selftest(ctx, eng, scheds, events):
     ctx.violation = lambda sig, what, replay: hits.append(sig)
     ctx.drift = lambda what: None
     try:
-        clean = F.validate_traces(ctx, [(sched, alog, evs)], tag="st-clean")
-        res["clean_trace_accepted"] = (not clean["resyncs"] and not clean["violated"])
-        # (a) corrupt one recorded field: an entry vanishes from the recorded irclog
+        # (a) corrupt one recorded field: an entry vanishes from the recorded irclog; (b) drop one event;
+        # (m) migration: the irclog copy of an entry "stayed JSON" in the record of the RestartWithEncoding step
         bad = json.loads(json.dumps(evs))
         bad[k]["post"]["store"] = bad[k]["post"]["store"][1:]
-        r = F.validate_traces(ctx, [(sched, alog, bad)], tag="st-corrupt")
-        res["corrupted_field_rejected"] = bool(r["resyncs"] or r["violated"])
-        res["corrupted_field_invariant"] = [v[0] for v in r["violated"]]
-        # (b) drop one event
         dropped = evs[:k] + evs[k + 1:]
-        r = F.validate_traces(ctx, [(sched, alog, dropped)], tag="st-drop")
-        res["dropped_event_rejected"] = bool(r["resyncs"] or r["violated"])
+        runs = {"clean": (sched, alog, evs), "corrupt": (sched, alog, bad), "drop": (sched, alog, dropped)}
+        if mig:
+            mnames = {s_["name"]: s_ for s_ in mig[0]}
+            for n_, evs_ in F.split_events(mig[1]):
+                hit = [j for j, e in enumerate(evs_) if e["ev"] == "RestartEnc" and e.get("post") and e["post"]["ienc"] and e.get("conv")]
+                if hit and n_ not in F.judge_all.flagged:
+                    badm = json.loads(json.dumps(evs_))
+                    badm[hit[0]]["post"]["ienc"][0][1] = "json"
+                    runs["mig"] = (mnames[n_], eng.alogs[n_], badm)
+                    conv = evs_[hit[0]]["conv"]
+                    res["clean_conversion_accepted"] = not F.check_conversion(conv)[0]
+                    tam = json.loads(json.dumps(conv))
+                    vict = [r_ for r_ in tam["raft_post"] if r_.get("msg")]
+                    vict[-1]["msg"]["UnixNano"] += 1
+                    res["tampered_conversion_detected"] = bool(F.check_conversion(tam)[0])
+                    break
+        with concurrent.futures.ThreadPoolExecutor(max_workers=4) as ex:
+            futs = {key: ex.submit(F.validate_traces, ctx, [item], "st-" + key) for key, item in runs.items()}
+            out = {key: f.result() for key, f in futs.items()}
+        res["clean_trace_accepted"] = (not out["clean"]["resyncs"] and not out["clean"]["violated"])
+        res["corrupted_field_rejected"] = bool(out["corrupt"]["resyncs"] or out["corrupt"]["violated"])
+        res["corrupted_field_invariant"] = [v[0] for v in out["corrupt"]["violated"]]
+        res["dropped_event_rejected"] = bool(out["drop"]["resyncs"] or out["drop"]["violated"])
+        if mig:
+            res["wrong_recorded_encoding_rejected"] = bool("mig" in out and (out["mig"]["resyncs"] or out["mig"]["violated"]))
         # (c) the differential oracle: the reference is told to skip an entry the node applied
         wrong = json.loads(json.dumps(sched))
         wrong["name"] = "selftest-wrong-reference"
@@ -235,6 +255,8 @@ def selftest(ctx, eng, scheds, events):
     finally:
         ctx.violation, ctx.drift = saved_v, saved_d
     ok = res["clean_trace_accepted"] and res["corrupted_field_rejected"] and res["dropped_event_rejected"] and res["wrong_reference_detected"]
+    if mig:
+        ok = ok and res["wrong_recorded_encoding_rejected"] and res.get("clean_conversion_accepted") and res.get("tampered_conversion_detected")
     ctx.cov["binding_selftest"] = res
     ctx.log("binding selftest: %s" % res)
     if not ok:
@@ -296,16 +318,19 @@ def _run(ctx):
                 cex[cfg] = hist
         ctx.cov["asis_counterexamples"] = {k: [h["a"] for h in v] for k, v in cex.items()}
         return cex
-    pool = concurrent.futures.ThreadPoolExecutor(max_workers=3)
+    pool = concurrent.futures.ThreadPoolExecutor(max_workers=4)
     f_mig = pool.submit(eng.edges, "FSM_migbook.cfg", 1500)
     f_cex = pool.submit(asis)
     f_sim = pool.submit(eng.simulate, "FSM_sim.cfg", 40 if quick else 600, 36, 300 if quick else 2400)
+    f_simmig = pool.submit(eng.simulate, "FSM_simmig.cfg", 24 if quick else 400, 36, 300 if quick else 2400)
 
     # 3. replay on the real FSM: known shapes, both encodings
     behs = list(known_shapes().values())
     eng.replay_behaviours(behs + behs, "PreludeSess", "shape", proto_of=lambda k: k < len(behs))
     # 3b. the encoding migration of the node: a JSON node restarted as a protobuf node
-    eng.replay_behaviours(list(migration_shapes().values()), "PreludeSess", "migshape", proto_of=lambda k: False)
+    #     (with the production message offset: ids written by the conversion must carry it)
+    eng.replay_behaviours(list(migration_shapes().values()), "PreludeSess", "migshape", proto_of=lambda k: False,
+                          offset_of=lambda k: F.PROD_OFFSET)
 
     # 4. replay every transition of the small graphs
     behs, nedges = eng.edges("FSM_edges.cfg" if quick else "FSM_edges4.cfg")
@@ -327,19 +352,28 @@ def _run(ctx):
     if not quick:
         eng.background("exhaustive-lim", lambda: eng.exhaustive("FSM_lim.cfg", workers=4))
 
+        def exhaustive_mig():
+            r = eng.exhaustive("FSM_migbig.cfg", workers=4, coverage=True)
+            taken = [l.strip() for l in r.out.splitlines() if l.startswith("<RestartWithEncoding ")]
+            ctx.cov["coverage_RestartWithEncoding"] = taken[-1:] if taken else []
+            ctx.log("FSM_migbig: %d distinct states, depth %d" % (r.distinct, r.depth))
+        eng.background("exhaustive-mig", exhaustive_mig)
+
     # 4c. every transition of the migration graph (JSON life, RestartWithEncoding("proto"), protobuf life):
     #     the behaviours that contain the migration
     behs, nedges = f_mig.result()
     ctx.cov["edges_migration"] = nedges
     behs = [b for b in behs if any(h["a"] == "RestartEnc" for h in b)]
     ctx.cov["migration_behaviours"] = len(behs)
-    scheds_m, ev_m = eng.replay_behaviours(behs, "PreludeSess", "migedge", proto_of=lambda k: False, limit=350 if quick else None,
-                                           nproc=4 if quick else 6)
+    scheds_m, ev_m = eng.replay_behaviours(behs, "PreludeSess", "migedge", proto_of=lambda k: False, limit=300 if quick else None,
+                                           nproc=4 if quick else 6, offset_of=lambda k: F.PROD_OFFSET if k % 3 else 0)
 
     # 5. TLC's counterexamples for the pinned behaviour and the simulated behaviours
     behs = list(f_cex.result().values())
     eng.replay_behaviours(behs + behs, "PreludeSess", "asis", proto_of=lambda k: k < len(behs))
     eng.replay_behaviours(f_sim.result(), "PreludeSess", "sim", nproc=4 if quick else 6)
+    eng.replay_behaviours(f_simmig.result(), "PreludeSess", "simmig", proto_of=lambda k: False, nproc=4 if quick else 6,
+                          offset_of=lambda k: F.PROD_OFFSET if k % 2 == 0 else 0)
     pool.shutdown()
 
     # 6. seeded random schedules over longer realistic logs (differential oracle only)
@@ -362,5 +396,5 @@ def _run(ctx):
     real_raft(ctx, eng, 10 if quick else 300)
 
     # 7. the binding binds
-    selftest(ctx, eng, scheds2, ev2)
+    selftest(ctx, eng, scheds2, ev2, mig=(scheds_m, ev_m))
     eng.finish()
